@@ -2339,7 +2339,17 @@ where
                         .take(samples_all)
                         .collect()
                 } else {
-                    data.to_vec()
+                    let size_all = (rows as usize)
+                        * (cols as usize)
+                        * (samples_per_pixel as usize)
+                        * (bits_allocated.div_ceil(8) as usize)
+                        * (number_of_frames as usize);
+                    if size_all % 2 == 1 && data.len() == size_all + 1 {
+                        // leave out the byte which pads the value to an even length
+                        data[..size_all].to_vec()
+                    } else {
+                        data.to_vec()
+                    }
                 }
             }
             DicomValue::Sequence(..) => InvalidPixelDataSnafu.fail()?,
